@@ -310,7 +310,13 @@ func VH_C09_batches() {
 	}
 	vhWriteCmd(s, "SETCHAN", "ch", "WITHIN", "a", "FENCE", "BOUNDS", "0", "0", "1", "1")
 	live := vhSnapshot(s)
+	// a follower is attached: it streams from its own handle on the live file, which the rewrite replaces,
+	// so the rewrite must disconnect it (it then reconnects and resyncs)
+	fconn := &vhConn{id: 7}
+	fcloser := &vhCloser{}
+	s.aofconnM[fconn] = fcloser
 	s.aofshrink()
+	vassert("C06.shrink_disconnects_attached_followers", fconn.closed && fcloser.closed)
 	vassert("C09.K1.live_state_untouched", vhSnapshot(s) == live)
 	rec, err := vhRestartOn(s.opts.AppendFileName)
 	vassert("C09.K1.restart_loads", err == nil)
@@ -414,3 +420,7 @@ func vhRunToCrash(f func()) (crashed bool) {
 	f()
 	return false
 }
+
+type vhCloser struct{ closed bool }
+
+func (c *vhCloser) Close() error { c.closed = true; return nil }
